@@ -108,6 +108,23 @@ CHECKS = {
               "stop_gradient, where by forward value) and re-validated on every run. The texp per quantizer is a hand transcription of the "
               "return expression. bernoulli/stochastic_*/ulaw/hswish not covered."),
         technique="Coq proof over a dual-number expression semantics + GradientTape differential correspondence"),
+    "C18": dict(
+        category="proof",
+        text=("Coq theorems (Properties/C18.v), unbounded in bit widths and in the number of accumulated terms: for fixed-point weights and "
+              "inputs the dot product of any representable operand codes (most-negative x most-negative corner excluded, and refuted with a "
+              "witness) is a code of the layer accumulator that the data-type map reports, without bias and with a fixed-point bias on the finer "
+              "grid; the auto_po2-adjusted multiplier holds every product scaled by any per-channel power-of-two scale in range; the weight-based "
+              "estimator (bias added once) bounds every output for every input in the stated box, and the pre-repair formula is refuted. "
+              "Correspondence: the real QTools pipeline (graph construction, activation propagation, generate_layer_data_type_map) runs on random "
+              "functional models; every reported layer accumulator is compared field by field with the Coq layer model; every input, weight, "
+              "bias, activation and pre-activation tensor of the running model (random and extremal weights x random, all-max, all-min, "
+              "sign-aligned inputs) is tested for exact membership in its reported type (Python Fractions, extremes re-judged by Coq mem_type); "
+              "analyze_accumulator is compared with the realised / vertex maximum per channel. Two genuine defects repaired."),
+        design_ref="DESIGN.md section 5 C18, section 10.4, 10.8",
+        note=(TB_COMMON + "qtools' graph builder needs four Keras-2 accessors that Keras 3 dropped (known finding); the harness supplies them as "
+              "pure accessors and qtools runs unmodified. Po2 / binary / ternary kernels are covered by the operator theorems of C16/C17 and by "
+              "the membership runs here, not by a layer-level theorem. Tensors come from eager sub-models."),
+        technique="Coq proof (layer-level composition of the multiplier/accumulator/adder theorems; estimator bound over Q) + differential correspondence of the real QTools pipeline and membership of real tensors in reported types"),
     "C19": dict(
         category="proof",
         text=("Coq theorems (Properties/C19.v): the admissible window positions are exactly [0, extent) for valid/same padding with any "
